@@ -24,7 +24,10 @@ CHECKS['C13'] = dict(
         "counter machine (base += largest+1 per value) satisfies the statement's numbering clauses for every generated "
         "abbreviation; each abbreviation with its expected (number, placeholder) sequence is replayed through expand() in "
         "html/xml/jsx/vue/pug/haml/slim. (3) every invocation of output.text/output.field of a sample of those runs (and of "
-        "stylesheet runs) is recorded and validated as a trace against the OutputStream actions by Trace_OutputStream.tla.",
+        "stylesheet runs) is recorded and validated as a trace against the OutputStream actions by Trace_OutputStream.tla. (4) AbbrGrammar.tla "
+        "+ AbbrPrint.tla (field counter of the HTML and the HAML/Pug/Slim formatter and of the comment addon, transcribed) give the "
+        "tabstop sequence of every abbreviation of the documented grammar over a fragment set; compared with expand() under a marking "
+        "callback in html (with and without comment.enabled), pug, haml, slim.",
    note="Bounded. Callbacks that return text of other length are exercised, callbacks that rewrite the newline itself are not. "
         "Text with fields only on leaves. Trusted: TLC, Json/IOUtils modules, the 40-line recorder.",
    technique="TLA+ design model + spec->code replay of generated behaviours + code->spec trace validation of callback events",
@@ -248,8 +251,13 @@ CHECKS['C15'] = dict(
         "multi-line text as | lines resp. padded lines with | one level deeper). TLC checks the tree invariants and that the element "
         "lines carry exactly the depths of the tree in document order, text lines one deeper than their element. Every abbreviation is "
         "expanded by the real code for the three syntaxes with three indent strings; the output split into (indent units, text) lines "
-        "must equal the contract, and the depth listing must equal the tag listing of the real HTML output.",
-   note="Bounded (3-5 tokens all forms, 7-9 tokens four forms, simulated to 30 tokens). Lines are compared after removing trailing blanks.",
+        "must equal the contract, and the depth listing must equal the tag listing of the real HTML output. Second layer: AbbrGrammar.tla "
+        "generates every abbreviation of the documented grammar over a fragment set (ids, classes with blanks, quoted / boolean / implied "
+        "/ unnamed attributes, text with fields, self-closed elements with children) and AbbrPrint.tla - the transcription of "
+        "indent_format.py on the transcribed front half of the pipeline - prints the pug / haml / slim output, which is compared line by "
+        "line with expand().",
+   note="Bounded (3-5 tokens all forms, 7-9 tokens four forms, simulated to 30 tokens; grammar 4-5 fragments). Lines are compared after "
+        "removing trailing blanks.",
    technique="TLA+ tree machine = contract plus line contract (TLC) + spec->code replay for pug/haml/slim",
    ref="5/C15")
 
